@@ -274,7 +274,9 @@ theorem C27_coinbase_round_check_overpay_false :
 
 /-! ### T-gen -/
 
-/-- the callers: forceChange clears with `smoothClearing = false` (what the hook re-enacts), the
+/-- the callers: forceChange clears with `smoothClearing = false` (what the hook re-enacts) whenever
+    the chain is not yet in the DPoS-v2 era — unconditionally otherwise, also when nothing is
+    accumulated, so that the round reward of the previous clearing is replaced —, the
     regular round change with `true`, ordinary blocks accumulate; clearingDPOSReward distributes the
     accumulated reward (plus the block's only when smooth) and carries the block's otherwise; the
     coinbase validator compares every output from index 2 on -/
@@ -287,6 +289,7 @@ theorem C27_gen_callers :
        "IncreaseChainHeight: a.accumulateReward(block, confirm)",
        "AccumulateReward: a.accumulateReward(block, confirm)",
        "clearingDPOSReward: a.distributeDPOSReward(block.Height, accumulativeReward)"] ∧
+    Gen.C27.clearingGuards = ["forceChange: !a.isDPoSV2Run(block.Height)"] ∧
     Gen.C27.clearingStatements.take 3 =
       ["dposReward := a.getBlockDPOSReward(block)", "accumulativeReward := a.accumulativeReward",
        "if smoothClearing { accumulativeReward += dposReward dposReward = 0 }"] ∧
